@@ -121,6 +121,16 @@ func genRestCase(rt *rapid.T) RestCase {
 	return c
 }
 
+// scanningLog is an audit log file that looks around before it takes each record.
+type scanningLog struct {
+	f    *os.File
+	look func()
+}
+
+func (s *scanningLog) Write(p []byte) (int, error) { s.look(); return s.f.Write(p) }
+func (s *scanningLog) Sync() error                 { return s.f.Sync() }
+func (s *scanningLog) Close() error                { return s.f.Close() }
+
 func noGroupOther(p string) (os.FileMode, bool) {
 	st, err := os.Stat(p)
 	if err != nil {
@@ -137,18 +147,36 @@ func runC05Scan(t *testing.T, c RestCase) (*h.Violation, h.Info) {
 	os.MkdirAll(dir, 0o700)
 	defer os.RemoveAll(filepath.Dir(dir))
 	dbPath, logPath := filepath.Join(dir, "database"), filepath.Join(dir, "audit.log")
-	aw, err := audit.NewFile(logPath)
+	logFile, err := os.OpenFile(logPath, os.O_WRONLY|os.O_APPEND|os.O_CREATE, 0o600)
 	if err != nil {
 		return h.V("harness", "audit: %v", err), info
 	}
+	// the audit device looks around the state directory every time a record arrives - that is, while
+	// a request is being served: whatever the server keeps there at that moment is scanned too
+	var values [][]byte
+	duringRequest := ""
+	aw := audit.New(&scanningLog{f: logFile, look: func() {
+		ents, _ := os.ReadDir(dir)
+		for _, e := range ents {
+			if e.Name() == "audit.log" || duringRequest != "" {
+				continue
+			}
+			if data, err := os.ReadFile(filepath.Join(dir, e.Name())); err == nil {
+				if m := findMarker(data, values); m != "" {
+					duringRequest = fmt.Sprintf("file %s (%d bytes) contains the value %q in plain or trivially encoded form", e.Name(), len(data), m)
+				}
+			}
+		}
+	}})
 	defer aw.Close()
 	inner, _ := newRealKEK()
 	kek := &countingKEK{inner: inner}
 	var d *db.DB
+	var srv *server.Server
 	mux := http.NewServeMux()
 	if c.HTTP {
 		// as the server binary does it: the server opens the database itself and is given the audit writer
-		_, err = server.New(context.Background(), server.Config{DBPath: dbPath, Key: kek, AuditLog: aw, Mux: mux,
+		srv, err = server.New(context.Background(), server.Config{DBPath: dbPath, Key: kek, AuditLog: aw, Mux: mux,
 			WhoIs: func(context.Context, string) (*apitype.WhoIsResponse, error) { return dbx.WhoIsOf(dbx.Super()), nil }})
 	} else {
 		d, err = db.Open(dbPath, kek, aw)
@@ -180,11 +208,16 @@ func runC05Scan(t *testing.T, c RestCase) (*h.Violation, h.Info) {
 	var tgt dbx.Target = dbx.DBTarget{D: d}
 	tr := dbx.NewTracker()
 	if c.HTTP {
-		tgt = &dbx.HTTPTarget{Mux: mux, AddrOf: dbx.AddrOf}
+		ht := &dbx.HTTPTarget{Mux: mux, AddrOf: dbx.AddrOf}
+		if len(c.Ops)%2 == 1 {
+			ht.Chunked = true // bodies without a declared length, as any HTTP/1.1 client may send them
+			info.Class("request-bodies-without-declared-length")
+		}
+		tgt = ht
 		tr.Wire = true
 		info.Class("through-http-handlers")
 	}
-	var values, names [][]byte
+	var names [][]byte
 	seenName := map[string]bool{}
 	saves := 0
 	for i, op := range c.Ops {
@@ -246,8 +279,14 @@ func runC05Scan(t *testing.T, c RestCase) (*h.Violation, h.Info) {
 			seenName[op.Name] = true
 			names = append(names, []byte(op.Name))
 		}
+		if srv != nil && i%2 == 0 {
+			_ = srv.Metrics().String() // the monitoring system scrapes the server's metrics
+		}
 		if n := kek.calls.Load(); n != openCalls {
-			return h.V("kek-only-at-open", "step %d %s: the key-encryption key was used %d more time(s) after Open returned", i, op, n-openCalls), info
+			return h.V("kek-only-at-open", "step %d %s: the key-encryption key was used %d more time(s) after Open returned (the server's metrics are rendered after every other call)", i, op, n-openCalls), info
+		}
+		if duringRequest != "" {
+			return h.V("no-secret-value-in-any-file", "while step %d %s was being served (seen from the audit device): %s", i, op, duringRequest), info
 		}
 		// scan every file in the state directory
 		ents, _ := os.ReadDir(dir)
@@ -272,8 +311,14 @@ func runC05Scan(t *testing.T, c RestCase) (*h.Violation, h.Info) {
 	}
 	// The file disappears or is damaged underneath the running server; the next write puts a complete
 	// file back - from what the server holds in memory, without going back to the key service.
-	if kind := len(c.Ops) % 4; kind != 0 && len(names) > 0 {
+	if kind := len(c.Ops) % 5; kind != 0 && len(names) > 0 {
 		switch kind {
+		case 4:
+			// another instance (a second server started by mistake, a restore tool) opens the same file
+			// with the same key and saves: the running server's next write is still its own business
+			if d2, err := dbx.OpenDiscard(dbPath, inner); err == nil {
+				d2.Put(su.DB(), "written-by-another-instance", []byte("x"))
+			}
 		case 1:
 			os.Remove(dbPath)
 		case 2:
@@ -287,14 +332,14 @@ func runC05Scan(t *testing.T, c RestCase) (*h.Violation, h.Info) {
 		want := tr.Expect(su.Rules, op, 0)
 		got := tgt.Do(su, op, 0)
 		if n := kek.calls.Load(); n != openCalls {
-			return h.V("kek-only-at-open", "the database file was %s underneath the running server; the next write used the key-encryption key %d more time(s) after Open returned (result %s)", []string{"", "removed", "overwritten with garbage", "truncated"}[kind], n-openCalls, got), info
+			return h.V("kek-only-at-open", "the database file was %s underneath the running server; the next write used the key-encryption key %d more time(s) after Open returned (result %s)", []string{"", "removed", "overwritten with garbage", "truncated", "replaced by another instance's save"}[kind], n-openCalls, got), info
 		}
 		if diff := dbx.Compare(got, want); diff != "" {
 			clause := "result-equals-model"
 			if c.Poison {
 				clause = "running-server-independent-of-kek"
 			}
-			return h.V(clause, "write after the database file was %s (KEK poisoned=%v): %s", []string{"", "removed", "overwritten with garbage", "truncated"}[kind], c.Poison, diff), info
+			return h.V(clause, "write after the database file was %s (KEK poisoned=%v): %s", []string{"", "removed", "overwritten with garbage", "truncated", "replaced by another instance's save"}[kind], c.Poison, diff), info
 		}
 		info.Class("file-damaged-under-the-running-server")
 	}
